@@ -16,9 +16,10 @@ import re
 
 from . import hirq as H
 from . import wire as W
-from .appendchain import Chain
+from .chain2 import Chain2, method_of, term_type, norm as cnorm
+from .pathcond import Analysis
+from . import sym as S
 from . import oblig_rules as OR
-from .c07 import chain_common
 from .engine import VERIF
 
 LEVEL = "other"
@@ -30,60 +31,71 @@ def norm(d):
     return re.sub(r"#\d+", "", d)
 
 
+def row_matches(seg, row, P):
+    """does a segment of the success path realise one row of the U2F layout for payload term P?"""
+    if "field" in row:
+        want = ("field", P, row["field"])
+        return seg.kind == ("byte" if row["append"] == "push" else "chunk") and seg.term == want
+    if "len_of" in row:
+        t = seg.term if seg.kind == "byte" else None
+        if not t or t[0] != "cast" or t[2] != row["as"]:
+            return False
+        c = t[1]
+        return c[0] == "call" and method_of(c[1]) == "len" and len(c[2]) == 1 and cnorm(c[2][0]) == ("field", P, row["len_of"])
+    if "be_bytes_of" in row:
+        return seg.kind == "be" and seg.n == {"u16": 2, "u32": 4, "u64": 8}[row["width"]] and seg.term == ("field", P, row["be_bytes_of"]) and seg.guard is None
+    if row.get("payload"):
+        return seg.kind == "chunk" and seg.term == P
+    return False
+
+
 def run(ctx):
     spec = json.load(open(os.path.join(VERIF, "spec", "layouts.json")))["u2f"]
-    ctx.explanation = ("Ordered-append analysis of ctap1::Response::serialize per response variant (all paths enumerated from typed HIR), who-may-call on the caller's buffer, "
-                       "Result propagation of every append, and two obligation discharges from static capacities: the u8 length cast and the three unwraps of register::Response::new.")
-    ctx.rule = "obligation = (variant, position) | (append site, clause) | capacity inequality, per configuration"
+    ctx.explanation = ("Ordered-append analysis of ctap1::Response::serialize per response variant: path summaries from typed HIR with /repo helpers expanded at their call sites "
+                       "(sym.Sym), every append normalised to byte / big-endian / chunk segments, every append's fate read from the path (known Ok, known Err, returned); "
+                       "who-may-call on the caller's buffer, and two obligation discharges from static capacities: the u8 length cast and the unwraps of register::Response::new.")
+    ctx.rule = "obligation = (variant, position) | (path, append, clause) | capacity inequality, per configuration"
     ctx.trusted = ["heapless 0.7.17 Vec::push / extend_from_slice: all-or-nothing, overflow is Err", "core u32::to_be_bytes", "cosey 0.3.2 field capacities (read from its ADT)"]
     for cfg, F in ctx.facts.items():
         n_sites = 0
         fn = F.fn(SER)
         if ctx.oblige("C09|ser|anchor", fn is not None, "anchor missing: ctap1::Response::serialize", cfg=cfg):
-            bid = [i for p in fn["params"] for n, i in H.pat_bindings(p) if n != "self"]
-            c = Chain(fn, bid[0])
-            n_sites = chain_common(ctx, cfg, c, "C09|ser", "ctap1::Response::serialize")
-            sp = c.success_paths()
+            bname = [n for p in fn["params"] for n, i in H.pat_bindings(p) if n != "self"]
+            c = Chain2(F, fn, buf=("param", bname[0]))
+            n_sites = c.check_common(ctx, cfg, "C09|ser", "ctap1::Response::serialize")
             by_variant = {}
-            for p in sp:
-                v = None
-                binds = []
-                for cd in p.conds:
-                    if cd.kind == "match" and H.local_name(cd.scrut) == "self":
-                        v = (H.pat_ctor(cd.pat) or "?").split("::")[-1]
-                        binds = H.pat_bindings(cd.pat)
-                by_variant.setdefault(v, []).append((p, binds))
+            for p in c.success_paths():
+                v = c.sym.lookup(p, ("param", "self"))
+                by_variant.setdefault((v or "?").split("::")[-1], []).append(p)
             for v, layout in ((k, spec[k]) for k in ("Register", "Authenticate", "Version")):
                 key = "C09|layout|" + v
                 ps = by_variant.get(v, [])
                 if not ctx.oblige(key + "|one-path", len(ps) == 1, "%s response has %d success paths (conditional appends?)" % (v, len(ps)), cfg=cfg, where=fn["sp"]):
                     continue
-                p, binds = ps[0]
-                b = binds[0][0] if binds else "?"
-                want = []
-                for row in layout:
-                    if "field" in row:
-                        want.append("%s:local:%s.%s" % (row["append"], b, row["field"]))
-                    elif "len_of" in row:
-                        want.append("%s:(core::slice::<impl [T]>::len(local:%s.%s) as %s)" % (row["append"], b, row["len_of"], row["as"]))
-                    elif "be_bytes_of" in row:
-                        want.append("%s:core::num::<impl %s>::to_be_bytes(local:%s.%s)" % (row["append"], row["width"], b, row["be_bytes_of"]))
-                    elif row.get("payload"):
-                        want.append("%s:local:%s" % (row["append"], b))
-                got = ["%s:%s" % (c.method(e) or "call", norm(c.data_desc(e))) for e in p.effects]
-                ctx.oblige(key, got == want, "%s response is laid out as %s, the U2F raw format is %s" % (v, got, want), cfg=cfg, where=fn["sp"])
+                P = ("proj", ("param", "self"), "ctap1::Response::" + v, 0)
+                segs = c.segments(ps[0])
+                good = len(segs) == len(layout) and all(row_matches(s, r, P) for s, r in zip(segs, layout))
+                got = [s.show() for s in segs]
+                ctx.oblige(key, good, "%s response is laid out as %s, the U2F raw format is %s" % (v, got, [r["what"] for r in layout]), cfg=cfg, where=fn["sp"])
                 ctx.sample({"cfg": cfg, "variant": v, "appends": got}, limit=9)
-            # B-cast
-            casts = [x for x in H.walk(fn["body"]) if x.get("k") == "cast"]
-            for x in casts:
-                inner = H.strip_block(x["e"])
-                cap = None
-                if inner.get("k") == "mcall" and inner.get("method") == "len":
-                    cap = W.capacity(inner["recv"].get("ty", "")).get("cap")
-                lim = {"u8": 255, "u16": 65535}.get(x.get("ty"))
-                ctx.oblige("C09|cast|" + norm(c.A.desc(x))[:80], cap is not None and lim is not None and cap <= lim,
-                           "narrowing cast %s: static capacity %s does not fit %s — the length byte would wrap" % (norm(c.A.desc(x)), cap, x.get("ty")), cfg=cfg, where=H.line(x))
-            ctx.extra.setdefault("length_casts", {})[cfg] = len(casts)
+            # B-cast: every narrowing cast in the serializer and the helpers expanded into it
+            bodies = [fn] + [F.fn(q) for q in sorted(c.sym.inlined) if F.fn(q) is not None]
+            ncast = 0
+            for g in bodies:
+                A = Analysis(g)
+                for x in H.walk(g["body"]):
+                    if x.get("k") != "cast":
+                        continue
+                    ncast += 1
+                    inner = H.strip_block(x["e"])
+                    cap = None
+                    if inner.get("k") == "mcall" and inner.get("method") == "len":
+                        cap = W.capacity(inner["recv"].get("ty", "")).get("cap")
+                    lim = {"u8": 255, "u16": 65535}.get(x.get("ty"))
+                    ctx.oblige("C09|cast|" + norm(A.desc(x))[:80], cap is not None and lim is not None and cap <= lim,
+                               "narrowing cast %s: static capacity %s does not fit %s — the length byte would wrap" % (norm(A.desc(x)), cap, x.get("ty")), cfg=cfg, where=H.line(x))
+            ctx.extra.setdefault("length_casts", {})[cfg] = ncast
+            ctx.extra.setdefault("helpers_expanded", {})[cfg] = sorted(c.sym.inlined)
         # field types
         for path, field, want in (("ctap1::register::Response", "public_key", "heapless_bytes::Bytes<65>"), ("ctap1::register::Response", "header_byte", "u8"),
                                   ("ctap1::authenticate::Response", "count", "u32"), ("ctap1::authenticate::Response", "user_presence", "u8")):
@@ -98,49 +110,46 @@ def run(ctx):
         # register::Response::new  (B-cap)
         fn = F.fn(NEW)
         if ctx.oblige("C09|new|anchor", fn is not None, "anchor missing: register::Response::new", cfg=cfg):
-            lets = [s for s in fn["body"].get("stmts", []) if s["k"] == "let" and s["pat"].get("k") == "bind" and s["pat"]["ty"].startswith("heapless_bytes::Bytes<")]
-            fresh = [s for s in lets if (H.strip_block(s.get("init") or {}).get("callee") or "").endswith("::new")]
-            if ctx.oblige("C09|new|fresh", len(fresh) == 1, "the public key is not assembled in a fresh buffer", cfg=cfg, where=fn["sp"]):
-                out = fresh[0]
-                cap = W.capacity(out["pat"]["ty"])["cap"]
-                c = Chain(fn, out["pat"]["id"])
-                ctx.oblige("C09|new|one-path", len(c.paths) == 1 and not c.paths[0].loops, "register::Response::new has %d paths" % len(c.paths), cfg=cfg)
-                eff = list(c.paths[0].effects) if c.paths else []
-                got = ["%s:%s" % (c.method(e) or "call", norm(c.data_desc(e))) for e in eff]
-                want = ["push:%d" % spec["public_key"]["prefix"]] + ["extend_from_slice:param:public_key.%s" % p for p in spec["public_key"]["parts"]]
-                ctx.oblige("C09|new|layout", got == want, "the public key is assembled as %s, expected %s" % (got, want), cfg=cfg, where=fn["sp"])
-                total = 0
-                known = True
-                for e in eff:
-                    if c.method(e) == "push":
-                        total += 1
-                    elif c.method(e) == "extend_from_slice":
-                        a = H.strip(e["args"][0])
-                        k = W.capacity(a.get("ty", "")).get("cap")
-                        if k is None:
+            c = Chain2(F, fn, buf=None)
+            bufs = c.buffers()
+            if ctx.oblige("C09|new|fresh", len(bufs) == 1 and not c.error, "the public key is not assembled in one fresh buffer (%d found)" % len(bufs), cfg=cfg, where=fn["sp"]):
+                buf = next(iter(bufs))
+                c.check_common(ctx, cfg, "C09|new", "register::Response::new", allow_unwrap=True)
+                sp = c.success_paths()
+                if ctx.oblige("C09|new|one-path", len(sp) == 1 and not sp[0].loops, "register::Response::new has %d success paths" % len(sp), cfg=cfg):
+                    p = sp[0]
+                    segs = c.segments(p)
+                    pk = ("param", "public_key")
+                    want = [("byte", ("lit", spec["public_key"]["prefix"]))] + [("chunk", ("field", pk, part)) for part in spec["public_key"]["parts"]]
+                    got = [(s.kind, s.term) for s in segs]
+                    ctx.oblige("C09|new|layout", got == want, "the public key is assembled as %s, expected 0x%02x || %s" % ([s.show() for s in segs], spec["public_key"]["prefix"], " || ".join(spec["public_key"]["parts"])), cfg=cfg, where=fn["sp"])
+                    total, known = 0, True
+                    for s in segs:
+                        if s.kind == "byte":
+                            total += 1
+                        elif s.kind == "chunk":
+                            k = W.capacity(term_type(F, fn, s.term) or "").get("cap")
+                            if k is None:
+                                known = False
+                            else:
+                                total += k
+                        else:
                             known = False
-                        else:
-                            total += k
-                    else:
-                        known = False
-                ctx.oblige("C09|new|capacity", known and total <= cap == spec["public_key"]["capacity"],
-                           "the unwraps in register::Response::new can fail: up to %s bytes are appended to a buffer of capacity %s" % (total if known else "an unbounded number of", cap), cfg=cfg, where=fn["sp"])
-                # each append's Result is unwrapped (allowed here because of the capacity inequality) — nothing is dropped silently
-                for e in eff:
-                    par = c.pm.get(id(e))
-                    ctx.oblige("C09|new|unwrap|" + norm(c.data_desc(e)), par is not None and par.get("callee") == "core::result::Result::<T, E>::unwrap",
-                               "an append in register::Response::new is neither checked nor unwrapped", cfg=cfg, where=H.line(e), nontrivial=False)
-                # struct literal: every field from the same-named parameter / the assembled key
-                tail = H.strip_block(fn["body"].get("expr", {}))
-                good = tail.get("k") == "struct"
-                if good:
-                    for f in tail["fields"]:
-                        ln, lid = H.local_name(f["e"]), H.local_id(f["e"])
-                        if f["name"] == "public_key":
-                            good = good and lid == out["pat"]["id"]
-                        else:
-                            good = good and ln == f["name"] and lid in c.A.param_ids
-                ctx.oblige("C09|new|fields", good, "register::Response::new does not store each argument in its own field", cfg=cfg, where=fn["sp"])
+                    # capacity of the fresh buffer: the declared type of the struct field it ends up in
+                    cap = W.capacity((W.field_types(F, "ctap1::register::Response") or {}).get("public_key", "")).get("cap")
+                    ctx.oblige("C09|new|capacity", known and cap is not None and total <= cap == spec["public_key"]["capacity"],
+                               "the unwraps in register::Response::new can fail: up to %s bytes are appended to a buffer of capacity %s" % (total if known else "an unbounded number of", cap), cfg=cfg, where=fn["sp"])
+                    # every append is checked by its unwrap (discharged by the inequality above): none is silently dropped
+                    for e in p.effects:
+                        ctx.oblige("C09|new|unwrap|" + S.show(e.args[1] if len(e.args) > 1 else e.args[0])[:60], c.fate(p, e) == "ok",
+                                   "an append in register::Response::new is neither checked nor unwrapped", cfg=cfg, where=H.line(e.node), nontrivial=False)
+                    # struct literal: every field from the same-named parameter / the assembled key
+                    r = p.result
+                    good = r is not None and r[0] == "struct" and r[1] == "ctap1::register::Response"
+                    if good:
+                        for name, v in r[2]:
+                            good = good and (v == buf if name == "public_key" else v == ("param", name))
+                    ctx.oblige("C09|new|fields", good, "register::Response::new does not store each argument in its own field (result %s)" % S.show(r)[:200], cfg=cfg, where=fn["sp"])
         ctx.floor("append sites in Response::serialize", n_sites, 3, cfg=cfg)
         # "never panics": obligations in the /repo instances reachable from ctap1::Response::serialize
         OR.check_root(ctx, F, cfg, "C09", "ctap1::Response::serialize@usize:1024", what="while encoding a U2F response")
